@@ -22,6 +22,8 @@ def sh(cmd, cwd=None, env=None, timeout=None):
         return p.returncode, out
     except subprocess.TimeoutExpired:
         try:
+            os.killpg(p.pid, signal.SIGTERM)  # ./check unwinds and kills its shards' process groups
+            time.sleep(5)
             os.killpg(p.pid, signal.SIGKILL)
         except ProcessLookupError:
             pass
